@@ -761,7 +761,7 @@ fn write_evidence(def: &CheckDef, tier: Tier, seed: u64, stats: &Stats, wall: f6
             "transitions": transitions.max(1),
             "traces_validated_against_impl": validated,
             "evaluations": stats.evaluations.max(1),
-            "distinct_nontrivial": stats.must.max(2),
+            "distinct_nontrivial": stats.must,
             "rule": def.rule,
             "samples": stats.samples,
             "exhaustive": exhaustive,
